@@ -921,8 +921,9 @@ class Extractor:
                 return it
         raise ExtractionError("arm block not found")
 
-    def if_blocks(self, file, fn_name, if_lit, name=None, after=None, nth=1, need_else=True):
-        """(then_item, else_item): inner texts of the `{..}` blocks of the `if` whose text starts at if_lit inside fn fn_name."""
+    def if_blocks(self, file, fn_name, if_lit, name=None, after=None, nth=1, need_else=True, whole=False):
+        """(then_item, else_item): inner texts of the `{..}` blocks of the `if` whose text starts at if_lit inside fn fn_name.
+        whole=True: one item, the complete `if COND { .. } [else { .. }]` statement, condition included."""
         src = self.read(file)
         toks, idx = self._find_item(src, "fn", fn_name, after, nth)
         if idx is None:
@@ -937,6 +938,13 @@ class Extractor:
             raise ExtractionError("then-block not found after %r" % if_lit)
         close = match_brace(src, toks, kb)
         out = []
+        if whole:
+            end = close
+            if close + 2 < len(toks) and src[toks[close + 1][1]:toks[close + 1][2]] == "else" and src[toks[close + 2][1]] == "{":
+                end = match_brace(src, toks, close + 2)
+            it = Item(self, file, (name or fn_name) + "_if", src[p:toks[end][2]], line_of(src, p), line_of(src, toks[end][2]), "slice")
+            it.dropped = "rest of fn %s outside the if statement at `%s`" % (fn_name, if_lit)
+            return [it]
         then_it = Item(self, file, (name or fn_name) + "_then", src[toks[kb][2]:toks[close][1]], line_of(src, toks[kb][2]),
                        line_of(src, toks[close][1]), "slice")
         out.append(then_it)
